@@ -141,7 +141,7 @@ def run_shard(ctx):
            st.sampled_from([None, None, None, "copy", "copy_add", "copy_wrap", "inplace_add", "inplace_wrap"]))
     def test(case, tkind):
         case = dict(case, transform=tkind)
-        check_case(ctx, case)
+        runner.guarded(ctx, check_case, case)
 
     runner.drive(ctx, test, ctx.n(8000, 80000))
     from checks import c14_files
